@@ -608,3 +608,73 @@ pub fn literal_pristine_programs() -> Vec<Vec<Stmt>> {
     }
     out
 }
+
+/// Evaluation order: every construct with more than one operand position, with operands that announce
+/// themselves (a marker function prints its number) and with operands that write a variable another operand
+/// of the same construct reads. At top level and inside a function (locals).
+pub fn evaluation_order_programs() -> Vec<Vec<Stmt>> {
+    let m = |k: i64, v: nederlang::verif::Expr| calln("m", vec![int(k), v]);
+    let bump = || calln("bump", vec![]);
+    let mut exprs: Vec<nederlang::verif::Expr> = Vec::new();
+    for op in all_infix_ops() {
+        let (l, r) = match op {
+            Operator::And | Operator::Or => (boolean(true), boolean(false)),
+            _ => (int(7), int(2)),
+        };
+        exprs.push(infix(m(1, l.clone()), op.clone(), m(2, r.clone())));
+        exprs.push(infix(infix(m(1, l.clone()), op.clone(), m(2, r.clone())), op.clone(), m(3, r.clone())));
+        exprs.push(infix(m(1, l.clone()), op.clone(), infix(m(2, l), op.clone(), m(3, r))));
+    }
+    exprs.extend([
+        array(vec![m(1, int(1)), m(2, int(2)), m(3, int(3))]),
+        calln("f3", vec![m(1, int(1)), m(2, int(2)), m(3, int(3))]),
+        calln("print", vec![string("{} {}"), m(1, int(1)), m(2, int(2))]),
+        index(m(1, id("arr")), m(2, int(1))),
+        assign(index(id("arr"), m(2, int(1))), m(3, int(9))),
+        assign(index(id("arr"), id("i")), bump()),
+        assign(index(id("arr"), bump()), id("i")),
+        assign(index(id("arr"), id("i")), op_assign("i", Operator::Add, int(2))),
+        assign(index(id("arr"), id("i")), index(id("arr"), op_assign("i", Operator::Add, int(1)))),
+        assign(index(id("arr"), op_assign("i", Operator::Add, int(1))), index(id("arr"), id("i"))),
+        infix(id("i"), Operator::Add, assign(id("i"), int(5))),
+        infix(assign(id("i"), int(5)), Operator::Add, id("i")),
+        infix(id("i"), Operator::Multiply, bump()),
+        infix(bump(), Operator::Subtract, id("i")),
+        infix(infix(id("i"), Operator::Add, bump()), Operator::Add, infix(id("i"), Operator::Multiply, bump())),
+        array(vec![id("i"), bump(), id("i"), op_assign("i", Operator::Add, int(10)), id("i")]),
+        calln("f3", vec![id("i"), bump(), id("i")]),
+        calln("f3", vec![bump(), id("i"), assign(id("i"), int(0))]),
+        neg(m(1, int(1))),
+        prefix(Operator::Not, m(1, boolean(true))),
+        iff(m(1, boolean(true)), vec![es(m(2, int(1)))], Some(vec![es(m(3, int(1)))])),
+        iff(m(1, boolean(false)), vec![es(m(2, int(1)))], Some(vec![es(m(3, int(1)))])),
+        calln("lengte", vec![m(1, array(vec![m(2, int(1)), m(3, int(2))]))]),
+        index(array(vec![m(1, int(1)), m(2, int(2))]), m(3, int(0))),
+        assign(id("i"), infix(m(1, int(1)), Operator::Add, id("i"))),
+        op_assign("i", Operator::Add, bump()),
+        calln("string", vec![index(id("arr"), bump())]),
+    ]);
+    let prelude = || {
+        vec![
+            es(func("m", &["k", "v"], vec![print1(id("k")), es(id("v"))])),
+            es(func("f3", &["a", "b", "c"], vec![es(array(vec![id("a"), id("b"), id("c")]))])),
+            let_("i", int(0)),
+            let_("arr", array(vec![int(10), int(20), int(30), int(40)])),
+            es(func("bump", &[], vec![es(op_assign("i", Operator::Add, int(1))), es(id("i"))])),
+        ]
+    };
+    let mut out = Vec::new();
+    for e in exprs {
+        let mut p = prelude();
+        p.push(let_("r", e.clone()));
+        p.push(es(calln("print", vec![string("{} {} {}"), id("r"), id("i"), id("arr")])));
+        out.push(p);
+        // inside a function: i and arr are locals there, bump writes the local through a nested... no closures:
+        // the function version keeps `i` global and makes `arr` a local
+        let mut q = prelude();
+        q.push(es(func("host", &[], vec![let_("arr", array(vec![int(10), int(20), int(30), int(40)])), let_("r", e), es(array(vec![id("r"), id("i"), id("arr")]))])));
+        q.push(es(calln("print", vec![calln("host", vec![])])));
+        out.push(q);
+    }
+    out
+}
